@@ -16,6 +16,17 @@ ENGINES = {
     },
 }
 
+ENGINES['eloop'] = {
+    'src': ['harness/eloop.c'],
+    'sim_src': ['sim/upump_sim.c', 'sim/alloc.c'],
+    'repo_src': ['lib/upipe/upump_common.c'],
+    'track_alloc': True,
+    'real': ['lib/upipe/upump_common.c', 'include/upipe/upump.h', 'include/upipe/upump_blocker.h',
+             'include/upipe/upump_common.h', 'include/upipe/upool.h'],
+    'stubs': ['event loop back end (sim/upump_sim.c in place of libev)', 'kernel eventfd', 'clock (simulated 27 MHz counter)',
+              'malloc of the repo objects (sim/alloc.c: accounting + injected failures)'],
+}
+
 SC = ('interleavings are explored under sequential consistency at the yield points of DESIGN.md 2.1 '
       '(every uatomic operation, every plain ring-element access, every descriptor read/write)')
 
@@ -45,6 +56,17 @@ PROPS = {
     },
 }
 
+PROPS['C13'] = {
+    'engine': 'eloop', 'quick_time': 20, 'thorough_time': 300,
+    'rule': ('one case = a history of 5-25 operations (start, stop, restart, set_status, blocker alloc/free, run the loop for n '
+             'dispatches, advance the clock, make a descriptor readable, free, re-alloc, choose what the callback does to itself or '
+             'another pump) on 1-3 pumps (idler, one-shot and repeating timer, fd-read) with pump/blocker pool depths {0,2,8}, plus the '
+             'recorded choices taken while it runs (dispatch order, spurious fd dispatch, timer lateness, allocation failure). '
+             'Non-trivial = the loop was run at least once; distinct = distinct (plan hash, decision-tape hash).'),
+    'assumptions': ['the back end is sim/upump_sim.c (same call structure as lib/upump-ev/upump_ev.c); libev itself is not exercised',
+                    'restart is exercised on timers only (it is only specified for timers)'],
+}
+
 TECH = 'deterministic simulation with fault injection: seeded search over schedules / fault sequences, reference-model oracle, minimised replay files'
 
 PROPS['C07'].update({
@@ -60,7 +82,13 @@ PROPS['C09'].update({
     'level_note': 'sequential consistency at the announced yield points; sampling, not enumeration',
     'design_ref': 'DESIGN.md section 5, C09'})
 
+PROPS['C13'].update({
+    'technique': 'deterministic simulation with fault injection: seeded operation histories on the real upump_common.c over a simulated event loop and clock, reference automaton (started, blockers, status) checked after every operation and at every back-end call, minimised replay files',
+    'level_note': 'sampling, not enumeration; the event-loop back end is simulated (libev replaced); trusted base = sim/upump_sim.c and the automaton in harness/eloop.c',
+    'design_ref': 'DESIGN.md section 5, C13'})
+
 LEVEL_TEXT = {
+    'C13': 'Seeded exploration of operation histories on 1-3 pumps with up to 3 blockers each; after every operation the back-end activity must equal started && no blocker, every back-end call must be the expected one with the status in force, callbacks only run for active pumps, free notifies each outstanding blocker exactly once. Evidence, not proof.',
     'C07': 'Seeded exploration of interleavings of small client programs on the real ulifo/ufifo/upool at the granularity of single atomic operations and plain ring accesses; every history is checked for linearizability against a sequential model. Evidence, not proof: a clean batch of some millions of distinct schedules; found and fixed a real ABA defect in uring_fifo_pop.',
     'C08': 'Seeded exploration of producers/consumers sleeping on simulated event descriptors around the real uqueue; any quiescent state with work left is a lost wake-up. Found and fixed the counter-based wake-up defect; evidence, not proof.',
     'C09': 'Seeded exploration of concurrent use/release on the real urefcount with a harness-side count as oracle (destructor exactly once, never early). Evidence, not proof.',
@@ -69,7 +97,7 @@ LEVEL_TEXT = {
 NOT_YET = 'not claimed yet: engine under construction (DESIGN.md section 10)'
 NOT_APPLICABLE = {
     'C01': NOT_YET, 'C02': NOT_YET, 'C03': NOT_YET, 'C04': NOT_YET, 'C05': NOT_YET, 'C06': NOT_YET,
-    'C10': NOT_YET, 'C12': NOT_YET, 'C13': NOT_YET, 'C14': NOT_YET, 'C15': NOT_YET, 'C16': NOT_YET, 'C20': NOT_YET,
+    'C10': NOT_YET, 'C12': NOT_YET, 'C14': NOT_YET, 'C15': NOT_YET, 'C16': NOT_YET, 'C20': NOT_YET,
     'C11': 'pure arithmetic on eight integer fields of one uref: no schedule, clock, fault or second party for a simulator to vary (DESIGN.md section 6)',
     'C17': 'NAL conversion / exp-Golomb are pure functions of their input; the framers need bitstream h264/h265 headers that are absent from the sandbox (DESIGN.md section 6)',
     'C18': 'bit writer/readers are pure functions of (fields, buffer size, segmentation); nothing blocks, allocates, times out or is shared (DESIGN.md section 6)',
